@@ -293,6 +293,44 @@ def run(ctx, prop, rule_text):
         else:
             ctx.notes.append("probe `%s` no longer shows a difference" % title)
         ctx.count("probe")
+    # ---- grammar-wide token programs (every construct of the grammar, token-level mutations, names that
+    #      collide with the rule names): correspondence + specification wherever the guards hold -----------
+    from .gen import prog as GP
+    ctx.phase("grammar-wide")
+    names = ["count", "Count", "COUNT", "buf", "BUF", "Init", "init", "Terminate", "pass", "Purge", "purge", "self",
+             "tVarByteArray", "TVARBYTEARRAY", "Text", "aListOfInstances", "x", "X", "_u", "cK", "mlK", "tT", "T"]
+    kinds = ["Identifier", "Dot", "OBracket", "CBracket", "Var", "Colon", "Equals", "EndProc", "Proc", "Func", "Return",
+             "Inherited", "For", "EndFor", "If", "EndIf", "Comma", "StringLiteral", "NumericLiteral", "OSqrBracket",
+             "CSqrBracket", "Override", "End"]
+    glines = []
+    for i in range(1500 if ctx.tier == "quick" else 30000):
+        g = GP.Gen(ctx.rng, names if i % 2 == 0 else None)
+        t = g.program(d=3)
+        if i % 3 == 2:
+            t = GP.mutate(ctx.rng, t, kinds)
+        glines.append(GP.wire(t)[len("parse"):])
+    g_impl = again(lambda l: ctx.run_harness("linttoks", l), ["linttoks" + l for l in glines])
+    g_model = again(ctx.run_driver, ["lint" + l for l in glines])
+    g_spec = again(ctx.run_driver, ["lintspec" + l for l in glines])
+    ctx.compare("linttoks on grammar-wide token programs (real parser + analyzers vs model)", ["linttoks" + l for l in glines],
+                list(map(view, g_impl)), list(map(view, g_model)), nontrivial=nontriv)
+    g_inside = 0
+    for i, l in enumerate(glines):
+        po = parse_out(g_impl[i])
+        ps = re.match(r"^L=(\S*) G=(\S+)$", g_spec[i])
+        if po is None:
+            ctx.oracle_fail(prop + ":crash", "the analyzers panicked on a token program", {"mode": "linttoks", "tokens": "linttoks" + l, "implementation": g_impl[i]})
+            continue
+        if not ps or ps.group(2) != "ok":
+            continue
+        g_inside += 1
+        a = sorted(x for x in po[0] if mine(item_cls_rng(x)[0]))
+        b = sorted(x for x in ps.group(1).split(",") if x and mine(item_cls_rng(x)[0]))
+        if a != b:
+            ctx.oracle_fail(prop + ":spec-mismatch", "every guard of the theorems holds of this program, yet implementation and specification differ",
+                            {"mode": "linttoks", "tokens": "linttoks" + l, "implementation": g_impl[i], "model": g_model[i], "specification": g_spec[i]})
+    ctx.dist["grammar_wide_programs"] = len(glines)
+    ctx.dist["grammar_wide_inside_domain"] = g_inside
     # samples / distribution
     pick = [0, len(cases) // 2, len(cases) - 1]
     ctx.samples = [{"kind": cases[i]["kind"], "text": cases[i]["text"], "implementation": impl[i], "generator_expected": cases[i]["expected"]}
@@ -364,6 +402,23 @@ def replay(ctx, prop):
     d = json.load(open(ctx.replay))
     case = d.get("case", {})
     text = case.get("text") if isinstance(case, dict) else None
+    if not text and isinstance(case, dict) and case.get("tokens"):
+        ctx.build_harness()
+        ctx.lake_build(["driver"])
+        tl = case["tokens"][len("linttoks"):]
+        impl = ctx.run_harness("linttoks", ["linttoks" + tl])[0]
+        model = ctx.run_driver(["lint" + tl])[0]
+        spec = ctx.run_driver(["lintspec" + tl])[0]
+        print("tokens        :", tl)
+        print("implementation:", unesc(impl))
+        print("model         :", unesc(model))
+        print("specification :", unesc(spec))
+        po, ps = parse_out(impl), re.match(r"^L=(\S*) G=(\S+)$", spec)
+        if po is None or impl != model or (ps and ps.group(2) == "ok" and sorted(po[0]) != sorted(x for x in ps.group(1).split(",") if x)):
+            print("VIOLATION property=%s replay=%s" % (prop, ctx.replay))
+            return 1
+        print("implementation, model and specification agree on this case")
+        return 0
     if not text:
         print("replay file names no input:", json.dumps(d.get("broken", d), indent=1)[:3000])
         return 1
